@@ -27,9 +27,23 @@ def _graph(ctx, OpS, spec):
         for k, o in enumerate(ops):
             if o[0] in ("store", "load"):
                 s = slots.setdefault(o[1], _slot(o[1], 300 + len(slots), False))
-                op = mkop(OpS, o[0], s, expr=f"expr:{name}:{k}:{o[0]} {o[1]}")
+                # the op's expression behaves like a PyTeal expression: `==` builds an Eq expression, which type-checks
+                # its operands (the three variables hold uint64, bytes, uint64)
+                ex = Sym(f"expr:{name}:{k}:{o[0]} {o[1]}", attrs={"$isa": {"Expr"}, "ttype": "bytes" if o[1] == "y" else "uint64"})
+
+                def expr_eq(other, ex=ex):
+                    if isinstance(other, Sym) and other.attrs.get("ttype") not in (None, ex.attrs["ttype"]):
+                        raise Raised("TealTypeError(actual, expected) from comparing two expressions with ==", None)
+                    return Rec("call", Rec("name", "Eq"), [ex, other], {})
+
+                ex.methods["__eq__"] = expr_eq
+                op = mkop(OpS, o[0], s, expr=ex)
                 if o[0] == "load":
                     loads.append((name, k, o[1], op))
+            elif o[0] == "int" and len(o) > 1:
+                # the index of the variable is taken (ScratchIndex / by-reference argument): not a write
+                s = slots.setdefault(o[1], _slot(o[1], 300 + len(slots), False))
+                op = mkop(OpS, "int", s)
             else:
                 op = mkop(OpS, o[0], *( [1] if o[0] == "int" else []))
             lst.append(op)
@@ -90,6 +104,10 @@ SCENARIOS = {
     "arms store different variables, join loads both": ({"c": ([], ["t", "e"]), "t": ([("store", "x")], ["j"]), "e": ([("store", "y")], ["j"]), "j": ([("load", "x"), ("load", "y")], [])}, "c"),
     "three Cond arms each storing its own variable": ({"c1": ([], ["a1", "c2"]), "a1": ([("store", "x")], ["j"]), "c2": ([], ["a2", "a3"]), "a2": ([("store", "y")], ["j"]), "a3": ([("store", "z")], ["j"]), "j": ([("load", "z")], ["k"]), "k": ([("load", "x")], [])}, "c1"),
     "same number of stores on both arms, different sets, two joins": ({"c": ([("store", "w")], ["t", "e"]), "t": ([("store", "x"), ("store", "y")], ["j"]), "e": ([("store", "y"), ("store", "z")], ["j"]), "j": ([("load", "y")], ["k"]), "k": ([("load", "z"), ("load", "x")], [])}, "c"),
+    "index taken, never stored, then loaded": ({"a": ([("int", "x"), ("load", "x")], [])}, "a"),
+    "index taken in one arm, loaded at the join": ({"c": ([], ["t", "e"]), "t": ([("int", "x")], ["j"]), "e": ([("store", "x")], ["j"]), "j": ([("load", "x")], [])}, "c"),
+    "two offending loads of different expressions in nested blocks": ({"a": ([("load", "x")], ["b"]), "b": ([("load", "y")], ["c"]), "c": ([("load", "x"), ("load", "z")], [])}, "a"),
+    "the same offending block reached over two paths": ({"c": ([], ["t", "e"]), "t": ([("int",)], ["j"]), "e": ([("int",)], ["j"]), "j": ([("load", "x"), ("load", "y")], [])}, "c"),
     "loop re-entered with a different set of the same size": ({"p": ([], ["t", "e"]), "t": ([("store", "x")], ["h"]), "e": ([("store", "y")], ["h"]), "h": ([], ["b", "q"]), "b": ([("load", "y")], ["h"]), "q": ([], [])}, "p"),
 }
 
@@ -121,16 +139,28 @@ def r17_1_walk(ctx):
         def extra(e, me):
             raise Unknown()
 
+        from sa.objworld import ObjWorld
+
+        OW = ObjWorld(ctx.model, ["pyteal.errors"], real_classes={"TealCompileError"}, where="c17")
+        base = make_oracle(OpS, B, extra)
+
+        def oracle(e, me, base=base, OW=OW):
+            try:
+                return base(e, me)
+            except Unknown:
+                OW.me = me
+                return OW.oracle()(e, me)
+
         try:
-            val, me = run_function(vs.node, {"self": blocks[entry]}, make_oracle(OpS, B, extra), vs.fq, permissive=True, setup=setup)
+            val, me = run_function(vs.node, {"self": blocks[entry]}, oracle, vs.fq, permissive=True, setup=setup)
         except Raised as r:
             ctx.bad("R17.1", f"validateSlots[{name}]", f"raises {r.exc_text[:60]}", vs.where)
             continue
         got = set()
         unnamed = 0
         for err in val or []:
-            expr = err.args[1] if isinstance(err, Rec) and len(err.args) > 1 else None
-            hit = [(bn, k) for bn, k, sl, op in loads if op.attrs["expr"] == expr]
+            expr = err.attrs.get("sourceExpr") if isinstance(err, Sym) else (err.args[1] if isinstance(err, Rec) and len(err.args) > 1 else None)
+            hit = [(bn, k) for bn, k, sl, op in loads if op.attrs["expr"] is expr]
             if hit:
                 got.add(hit[0])
             else:
@@ -199,6 +229,10 @@ def r17_4_wiring(ctx):
 
 
 def run(ctx):
+    from rules import c11 as _c11
+
+    _c11.r11_1_inventory(ctx, only_under="pyteal/compiler")  # the check is made for every compilation: no process-wide memo of "already checked" in the compiler passes (shared with C11)
+    _c11.r11_1_inventory(ctx, only_under="pyteal/ir")
     r17_1_walk(ctx)
     r17_4_wiring(ctx)
     return (
